@@ -360,6 +360,11 @@ instance : MLoad AtomicBoolH Bool :=
 instance : MStore AtomicBoolH Bool :=
   ⟨fun h v o st => .ok () { st with completed := v, evs := st.evs ++ [.st h.loc o (if v then 1 else 0)] }⟩
 
+/-- the variants of `HasMore` (src/has_more.rs) -/
+def HasMore_Maybe : HasMore := .maybe
+def HasMore_No : HasMore := .no
+def HasMore_Yes (n : Nat) : M HasMore := pure (.yes n)
+
 def ManuallyDrop_new {α : Type} (a : α) : M α := pure a
 /-- `Iterator::size_hint` of the iterator about to be wrapped -/
 def m_size_hint (w : WrappedIt) : M (Nat × Option Nat) := pure w.hint
